@@ -300,8 +300,13 @@ def run_posix(desc):
             pat = prefix + text + suffix
             tail = 'z' if suffix.endswith('z') else suffix
             names = [prefix.replace('@(', '') + c + tail for c in ascii_chars]
-            acc = set(F.filter(names, pat, flags=F.DOTMATCH | F.EXTMATCH))
-            bacc = set(F.filter([n.encode() for n in names], pat.encode(), flags=F.DOTMATCH | F.EXTMATCH))
+            try:
+                acc = set(F.filter(names, pat, flags=F.DOTMATCH | F.EXTMATCH))
+                bacc = set(F.filter([n.encode() for n in names], pat.encode(), flags=F.DOTMATCH | F.EXTMATCH))
+            except Exception as e:
+                out.violation({'mode': 'fn', 'pattern': pat, 'cfg': {'dot': True, 'ext': True}, 'name': names[0], 'verdict': R.MUSTNOT,
+                               'impl': type(e).__name__, 'stream': 'brackets', 'raw': True, 'problem': 'exception'}, size=10, bucket=('brackets-exc', text))
+                continue
             for c, n in zip(ascii_chars, names):
                 want = ((c in members) != neg) or (prefix == '@(' and c == 'q')
                 out.evaluations += 1
@@ -317,6 +322,10 @@ def run_posix(desc):
 
 def replay(case):
     if case.get('raw'):
+        try:
+            F.compile(case['pattern'], flags=F.DOTMATCH | F.EXTMATCH)
+        except Exception as e:
+            return False, {'exception': type(e).__name__}
         got = F.fnmatch(case['name'], case['pattern'], flags=F.DOTMATCH | F.EXTMATCH)
         gotb = F.fnmatch(case['name'].encode(), case['pattern'].encode(), flags=F.DOTMATCH | F.EXTMATCH)
         want = case['verdict'] == R.MUST
